@@ -249,4 +249,95 @@ the socket buffer is empty. -/
 def Pipe.Settled (p : Pipe) : Prop :=
   p.dead = true ∨ (p.blocked = true ∧ p.n ≤ p.tokens) ∨ (p.blocked = false ∧ p.queued = 0)
 
+
+/-! ## Configuration wiring (`internal/cmd`, `dnssvc.NewListener`) — round 4
+
+How the numbers of the YAML file become the `stop` / `resume` of the shared counter and the capacity
+of the per-connection semaphore.  `none` stands for an absent section (a nil pointer in `cmd`). -/
+
+/-- `ratelimit.connection_limit` (`cmd.connLimitConfig`; both thresholds are `uint64`). -/
+structure ConnLimitYaml where
+  enabled : Bool
+  stop : Nat
+  resume : Nat
+deriving DecidableEq, Repr
+
+/-- What a conversion in `cmd` ends in. -/
+inductive Wired (α : Type) where
+  | rejected          -- `configuration.validate` returns an error
+  | panic             -- the conversion panics (`toInternal` on an error from `New`)
+  | off               -- nil limiter / `EmptySemaphore`: nothing is limited
+  | on (a : α)
+deriving DecidableEq, Repr
+
+/-- `connlimiter.New`: `if c == nil || c.Stop == 0 || c.Resume > c.Stop { return nil, err }`. -/
+def newLimiter (stop resume : Nat) : Option Counter :=
+  if stop = 0 ∨ resume > stop then none
+  else some { current := 0, stop := stop, resume := resume, accepting := true }
+
+/-- `connLimitConfig.validate` followed by `configuration.validateConnLimit` (`addrs` = the number of
+bound stream addresses, `serverGroups.streamAddrNum`). -/
+def ConnLimitYaml.validate (c : Option ConnLimitYaml) (addrs : Nat) : Bool :=
+  match c with
+  | none => false
+  | some c =>
+    if !c.enabled then true
+    else if c.stop = 0 then false
+    else if c.resume = 0 then false
+    else if c.resume > c.stop then false
+    else decide (addrs ≤ c.resume)
+
+/-- `connLimitConfig.toInternal`: nil when disabled, otherwise `New` with `Stop: c.Stop, Resume:
+c.Resume`, panicking on its error. -/
+def ConnLimitYaml.toInternal (c : ConnLimitYaml) : Wired Counter :=
+  if !c.enabled then .off
+  else match newLimiter c.stop c.resume with
+    | none => .panic
+    | some k => .on k
+
+/-- Validation, then conversion: what `cmd` does with the section at start-up. -/
+def ConnLimitYaml.wire (c : Option ConnLimitYaml) (addrs : Nat) : Wired Counter :=
+  match c with
+  | none => .rejected
+  | some k => if ConnLimitYaml.validate (some k) addrs then k.toInternal else .rejected
+
+/-- `ratelimit.tcp` (`cmd.ratelimitTCPConfig`). -/
+structure TcpYaml where
+  enabled : Bool
+  count : Nat
+deriving DecidableEq, Repr
+
+/-- `ratelimitTCPConfig.validate`: `validatePositive("max_pipeline_count", …)`, enabled or not. -/
+def TcpYaml.validate (c : Option TcpYaml) : Bool :=
+  match c with
+  | none => false
+  | some c => decide (0 < c.count)
+
+/-- `cmd.serverProto`. -/
+inductive Proto | dns | dnscrypt | doh | doq | dot
+deriving DecidableEq, Repr
+
+/-- `servers.toInternal`: the `switch dnsSrv.Protocol` gives every server but DNSCrypt ones the
+`agd.TCPConfig{MaxPipelineCount: ratelimitConf.TCP.MaxPipelineCount, MaxPipelineEnabled:
+ratelimitConf.TCP.Enabled}`. -/
+def Proto.tcpConf (p : Proto) (t : TcpYaml) : Option TcpYaml :=
+  match p with
+  | .dnscrypt => none
+  | _ => some t
+
+/-- `dnssvc.NewListener` copies the two fields into `ConfigDNS` for plain DNS and DoT (the servers
+whose stream connections run `serveTCPConn`); there `MaxPipelineEnabled` chooses between
+`NewChanSemaphore(MaxPipelineCount)` and `EmptySemaphore`.  Other protocols never make one. -/
+def Proto.wireTcp (p : Proto) (c : Option TcpYaml) : Wired Nat :=
+  match c with
+  | none => .rejected
+  | some t =>
+    if !TcpYaml.validate (some t) then .rejected
+    else match p with
+      | .dns | .dot =>
+        match p.tcpConf t with
+        | some k => if k.enabled then .on k.count else .off
+        | none => .off
+      | _ => .off
+
 end Agd.ConnLimit
